@@ -145,6 +145,8 @@ type builder struct {
 	fg       *value.FunctionGenerator
 	fns      map[string]fn
 	closures map[int]value.Value
+	// replProbe: 0 not probed, 1 replace ignores replacement keys outside the receiver, 2 it adds them
+	replProbe int
 }
 
 func newBuilder() *builder {
@@ -163,6 +165,19 @@ func (bd *builder) gen(src string, args ...string) fn {
 	}
 	bd.fns[key] = f
 	return f
+}
+
+// replaceAddsOutsideKeys probes once, on the real code, which of the two readings of replace the tree
+// implements for replacement keys the receiver does not have (ignored on the pinned tree).
+func (bd *builder) replaceAddsOutsideKeys() bool {
+	if bd.replProbe == 0 {
+		bd.replProbe = 1
+		v := bd.must("{a:1}.replace(o->{c:2}).size()", nil)
+		if i, ok := v.(value.Int); ok && i == 2 {
+			bd.replProbe = 2
+		}
+	}
+	return bd.replProbe == 2
 }
 
 func (bd *builder) must(src string, argNames []string, args ...value.Value) value.Value {
@@ -254,6 +269,14 @@ func (bd *builder) build(r *rv) value.Value {
 				lm = lm.Append(k, value.String("old"))
 			}
 			return bd.must("m.replace(o->r)", []string{"m", "r"}, value.NewMap(lm), lit(0, len(vals)))
+		case "replaceX":
+			// the real map with a replacement that names a key the map does not have ({c:2}, a key and a
+			// value that other pool members own): replace ignores such keys, so the abstract value is
+			// unchanged — every operator has to agree with that, whichever side the map stands on
+			if bd.replaceAddsOutsideKeys() {
+				return lit(0, len(vals)) // a tree on which replace adds such keys: nothing hidden to test
+			}
+			return bd.must("m.replace(o->r)", []string{"m", "r"}, lit(0, len(vals)), value.NewMap(listMap.New[value.Value](1).Append("c", value.Int(2))))
 		}
 	}
 	panic("c14 harness: cannot build " + r.String())
@@ -326,6 +349,7 @@ func makePool(thorough bool) (pool []*rv, numIdx, strIdx []int, curated int) {
 	add(vm("lit"), vm("real"),
 		vm("lit", "a", vi(1), "b", vi(2)), vm("lit", "b", vi(2), "a", vi(1)), vm("real", "a", vi(1), "b", vi(2)),
 		vm("put", "a", vi(1), "b", vi(2)), vm("merge", "b", vf(2), "a", vf(1)), vm("replace", "a", vf(1), "b", vi(2)),
+		vm("replaceX", "a", vi(1), "b", vi(2)), vm("replaceX", "a", vi(1)),
 		vm("lit", "a", vi(1), "b", vi(3)), vm("real", "a", vi(1), "c", vi(2)), vm("lit", "a", vi(1)), vm("put", "b", vi(2)),
 		vm("lit", "a", vs("x"), "b", vi(2)), vm("real", "a", vs("x"), "b", vi(3)),
 		vm("lit", "a", vl(vi(1)), "b", vm("lit", "c", vi(1))), vm("real", "b", vm("put", "c", vf(1)), "a", vlr("map", vi(1))),
